@@ -155,7 +155,7 @@ theorem step_callback (cfg : Cfg) (s : State) (i : Input) (sf f : Nat) (h : Outp
           · split at h
             · rename_i hd
               have hcm : s.comm = .communicating := by
-                obtain ⟨c, l, a, b, n, m, q⟩ := s
+                obtain ⟨c, cn, l, a, b, n, m, q⟩ := s
                 cases c <;> simp_all
               split at h
               · rcases List.mem_append.mp h with h | h
